@@ -245,15 +245,15 @@ type explorer struct {
 	calls   []*tcall
 	maxConc int
 	// violations noticed inside the callback (positive evidence)
-	cbViol  *kit.Violation
-	queried map[string]int
-	resps   []tresp
-	learned map[string][]*[20]byte // addr -> advertised IDs (nil = unknown ID)
-	op      *traversal.Operation
-	conn    *simnet.Conn // only for its goroutine inspection helpers
-	stopped bool
-	target  [20]byte
-	rejID   map[[20]byte]bool
+	cbViol     *kit.Violation
+	queried    map[string]int
+	resps      []tresp
+	learned    map[string][]*[20]byte // addr -> advertised IDs (nil = unknown ID)
+	op         *traversal.Operation
+	conn       *simnet.Conn // only for its goroutine inspection helpers
+	stopped    bool
+	target     [20]byte
+	rejID      map[[20]byte]bool
 	stallsSeen int
 }
 
